@@ -62,7 +62,8 @@ def decorate_answer(answer, request):
         is_4xxx_failure(answer) or
         is_5xxx_failure(answer)):
 
-        answer.header.set_error_bit(True)
+        if not answer.header.is_error():
+            answer.header.set_error_bit(True)
 
     if answer.has_avp("experimental_result_avp"):
         if answer.has_avp("result_code_avp"):
